@@ -723,3 +723,128 @@ def copy_own_containers(chk, repo, rid, class_quals, floor=1):
                    f"{ci.node.name}.copy() passes `{unparse(e)}` as {param}: the copy shares the container self.{attr} with the original, so an in-place "
                    f"addition made through one copy (e.g. `{attr}.add(...)` / `.update(...)` on a traversal cursor) appears in all of them",
                    key=f"{cp.qual}::own::{attr}", fn=cp.qual)
+
+
+# ----------------------------------------------------------------------------- every tryptophan gets its W>F candidate
+def w2f_scan_complete(chk, repo, rid):
+    """find_codon_reassignments must create a W2F candidate for EVERY 'W' of the peptide, the last residue included (the C-terminal
+    peptide of an ORF, or a peptide cut in front of a Sec codon, can end in W).  At the statement that creates the candidate for the
+    found index i the path conditions may say that something was found (i > -1) - they must not bound i away from the end of the
+    sequence (i < len(seq) - 1 and the like).  Decided from must-facts with affine reading of the comparisons; a scan written with
+    enumerate() has no such comparison at all."""
+    from sa import sem
+    from sa.affine import simple_aff, Aff
+    chk.rule(rid, 'R-COVER: the W>F candidate scan is not cut short before the last residue', 1)
+    f = repo.func('svgraph.VariantPeptideDict:VariantPeptideDict.find_codon_reassignments')
+    chk.uses(f)
+    sp = [a.arg for a in f.node.args.args if a.arg != 'self']
+    S = sp[0] if sp else 'seq'
+    ch = sem.block_chains(f.node)
+    sites = sem.facts_where(f.node, lambda st: sem.own_stmt(st) and bool(sem.calls_in_stmt(st, 'create_variant_w2f')))
+    if not sites:
+        chk.undecided(rid, 'W>F candidate creation', f.where, 'no create_variant_w2f(...) call found', key=f.qual + '::w2f-scan', fn=f.qual)
+        return
+    LEN = Aff.sym(f'len({S})')
+    for st, fx in sites:
+        c = sem.calls_in_stmt(st, 'create_variant_w2f')[0]
+        idx = c.args[1] if len(c.args) > 1 else kwarg(c, 'index')
+        it = unparse(idx) if idx is not None else None
+        bad = []
+        lits_ = []
+        for t, v in (sem.sure_literals(fx) if fx is not None else set()):
+            e0 = ast.parse(t, mode='eval').body
+            if isinstance(e0, ast.Compare) and len(e0.ops) > 1 and v:
+                left = e0.left          # a chained comparison that holds: every link holds
+                for op_, right in zip(e0.ops, e0.comparators):
+                    lits_.append((unparse(ast.Compare(left=left, ops=[op_], comparators=[right])), True))
+                    left = right
+            else:
+                lits_.append((t, v))
+        for t, v in lits_:
+            e = ast.parse(t, mode='eval').body
+            if isinstance(e, ast.Compare) and len(e.ops) == 1 and isinstance(e.ops[0], (ast.Gt, ast.GtE)):
+                e = ast.Compare(left=e.comparators[0], ops=[ast.Lt() if isinstance(e.ops[0], ast.Gt) else ast.LtE()], comparators=[e.left])
+            if not (isinstance(e, ast.Compare) and len(e.ops) == 1 and isinstance(e.ops[0], (ast.Lt, ast.LtE))):
+                continue
+            l_ = simple_aff(sem.expand_names(f.node, st, e.left, chains=ch, allow_calls=('len',), keep=(S,)))
+            r_ = simple_aff(sem.expand_names(f.node, st, e.comparators[0], chains=ch, allow_calls=('len',), keep=(S,)))
+            if l_ is None or r_ is None or it is None:
+                continue
+            d = l_ - r_            # d < 0 / d <= 0 holds (v True) or fails (v False)
+            ci = d.t.get(it, 0)
+            cl = d.t.get(f'len({S})', 0)
+            if ci == 0 or cl == 0:
+                continue
+            # normalise to  i (< | <=) len + k
+            strict = isinstance(e.ops[0], ast.Lt)
+            if not v:
+                d, strict, ci, cl = -d, not strict, -ci, -cl          # not (d < 0)  ==  -d <= 0
+            if ci == 1 and cl == -1 and len(d.t) == 2:
+                k = -d.c             # i - len + c (<|<=) 0  ->  i (<|<=) len - c
+                upper_excl = k if strict else k + 1      # i < len + upper_excl
+                if upper_excl < 0:
+                    bad.append(f"`{t}` is {v}: the index is kept below len({S}) {int(upper_excl):+d}")
+        chk.ob(rid, 'a W>F candidate is created for every found tryptophan, the last residue included', repo.loc(f, st), not bad,
+               '; '.join(bad) + ': a tryptophan at the last position of the peptide never gets its W>F form (peptides ending in W: C-terminal peptide of an ORF, '
+               'or a peptide cut in front of a Sec codon)', key=f.qual + '::w2f-scan', fn=f.qual)
+
+
+# ----------------------------------------------------------------------------- a writer / reader helper leaves its inputs as they are
+def readonly_inputs(chk, repo, rid, quals, what, floor=None):
+    """R-EFFECT: the listed functions only READ the objects they are given (annotation models, records, proteome entries).  A local that
+    is bound directly to an attribute chain of a parameter or of a loop variable (`xs = model.attr`) is an ALIAS of that object's
+    own list; `xs += ...`, `xs.sort()`, `xs.append(...)` ... then change the model itself.  A value built by `+`, a call, a slice or a
+    comprehension is a new object and may be changed freely."""
+    MUT = ('append', 'extend', 'insert', 'sort', 'reverse', 'pop', 'remove', 'clear', 'update', 'add', 'discard', 'setdefault', 'popitem')
+    chk.rule(rid, f"R-EFFECT: {what}", floor if floor is not None else len(quals))
+    for q in quals:
+        f = repo.func(q)
+        chk.uses(f)
+        roots = {a.arg for a in f.node.args.args + f.node.args.kwonlyargs if a.arg not in ('self', 'cls')}
+        # loop variables over (attributes of) inputs are inputs too
+        changed = True
+        while changed:
+            changed = False
+            for n in ast.walk(f.node):
+                if isinstance(n, (ast.For, ast.comprehension)):
+                    it = n.iter
+                    base = it
+                    while isinstance(base, (ast.Attribute, ast.Subscript)):
+                        base = base.value
+                    if isinstance(base, ast.Call) and isinstance(base.func, ast.Attribute) and base.func.attr in ('values', 'items', 'keys'):
+                        base = base.func.value
+                        while isinstance(base, (ast.Attribute, ast.Subscript)):
+                            base = base.value
+                    if isinstance(base, ast.Name) and base.id in roots:
+                        for t in ast.walk(n.target):
+                            if isinstance(t, ast.Name) and t.id not in roots:
+                                roots.add(t.id)
+                                changed = True
+
+        def chain_root(e):
+            while isinstance(e, (ast.Attribute, ast.Subscript)):
+                e = e.value
+            return e.id if isinstance(e, ast.Name) else None
+        aliases = {}
+        for n in ast.walk(f.node):
+            if isinstance(n, ast.Assign) and len(n.targets) == 1 and isinstance(n.targets[0], ast.Name) and isinstance(n.value, (ast.Attribute, ast.Subscript)) \
+                    and not (isinstance(n.value, ast.Subscript) and isinstance(n.value.slice, ast.Slice)) and chain_root(n.value) in roots | set(aliases):
+                aliases[n.targets[0].id] = unparse(n.value)
+        bad = []
+        for n in ast.walk(f.node):
+            tgt = None
+            if isinstance(n, ast.AugAssign):
+                tgt = n.target
+            elif isinstance(n, ast.Call) and isinstance(n.func, ast.Attribute) and n.func.attr in MUT:
+                tgt = n.func.value
+            elif isinstance(n, ast.Assign):
+                for t in n.targets:
+                    if isinstance(t, (ast.Attribute, ast.Subscript)) and chain_root(t) in roots:
+                        bad.append(f"`{norm_stmt(n)}` stores into the input")
+            if tgt is None:
+                continue
+            if isinstance(tgt, ast.Name) and tgt.id in aliases:
+                bad.append(f"`{unparse(n)[:60]}` changes `{tgt.id}`, which is `{aliases[tgt.id]}` itself (bound without a copy)")
+            elif isinstance(tgt, (ast.Attribute, ast.Subscript)) and chain_root(tgt) in roots:
+                bad.append(f"`{unparse(n)[:60]}` changes the input `{unparse(tgt)}` in place")
+        chk.ob(rid, f"{f.qual}: inputs are only read", f.where, not bad, '; '.join(bad[:3]), key=q + '::readonly', fn=f.qual)
